@@ -742,6 +742,8 @@ class WorldC06(World):
             try:
                 for i in gas_idx:
                     self._expected_rate_line(twin, i, md['reactions'][i], o, False)
+            except Violation:
+                raise
             except Exception:
                 raise Skip()
             call = lambda fn: self.ck.write_gas(nasa_species=live['list'], filename=fn, T=o['T'], reactions=live['reactions'],
@@ -753,6 +755,8 @@ class WorldC06(World):
             try:
                 for i in surf_idx:
                     self._expected_rate_line(twin, i, md['reactions'][i], o, True)
+            except Violation:
+                raise
             except Exception:
                 raise Skip()
             call = lambda fn: self.ck.write_surf(reactions=live['reactions'], sden_operation=o['sden_operation'], filename=fn,
@@ -773,6 +777,8 @@ class WorldC06(World):
                     if self._all_gas(md, r) == gasw:
                         m_ = getattr(twin['rxn_list'][i], o['ads_act_method'] if r['is_adsorption'] else o['act_method_name'])
                         _force_pass_arguments(m_, **dict(o['conditions'][0]))
+            except Violation:
+                raise
             except Exception:
                 raise Skip()
             call = lambda fn: self.ck.write_EA(reactions=live['reactions'], conditions=[dict(c) for c in o['conditions']],
